@@ -18,7 +18,7 @@ META = {
     "bounds": {
         "quick": "every directed graph over 3 synthesised dataclasses (9 adjacency bits), two edge kinds per graph drawn from "
                  "{C, Optional[C], list[C], dict[str, C], None | C} (assigned by edge parity), root C0 bare or inside list / Optional / dict[str, .]; "
-                 "naming / flavour variants {plain, a class nested in another, two classes of the same name in different modules, NamedTuple classes with string annotations} on a third "
+                 "naming / flavour variants {plain, a class nested in another, two classes of the same name in different modules, NamedTuple classes with string annotations, user Generic classes used bare, a Protocol root} on a fifth / third "
                  "of the graphs; input forms {type, 'string', ForwardRef, NewType, alias, NewType of NewType, NewType of alias, alias of NewType, repeated call} on the 512 single-kind graphs",
         "thorough": "4 classes with out-degree <= 2 (partitioned), all edge-kind pairs",
     },
@@ -37,6 +37,7 @@ def wrap_kind(k, c):
 
 
 _COUNTER = [0]
+_TV = t.TypeVar("_TV")
 
 
 def synth(n, adj, ka, kb, naming):
@@ -55,7 +56,8 @@ def synth(n, adj, ka, kb, naming):
             qual = f"C0.C{i}"
         if naming == 2 and i == 1:      # C1 lives in the other module under the root's name
             name, mod, qual = "C0", mb, "C0"
-        c = type(name, (), {"__module__": mod.__name__, "__qualname__": qual})
+        bases = (t.Generic[_TV],) if naming == 4 else (t.Protocol,) if naming == 5 and i == 0 else ()
+        c = types.new_class(name, bases, exec_body=lambda ns, m=mod.__name__, q=qual: ns.update({"__module__": m, "__qualname__": q}))
         cls.append(c)
     for i, c in enumerate(cls):
         if naming == 1 and i == n - 1:
@@ -217,7 +219,7 @@ def run_graph(n, adj, ka, kb, container, naming):
         caches.clear_all()
         root = cls[0]
         root_T = (root, list[root], t.Optional[root], dict[str, root])[container]
-        label = f"{('bare', 'list', 'Optional', 'dict')[container]}/{('plain', 'nested', 'same_name', 'namedtuple')[naming]}"
+        label = f"{('bare', 'list', 'Optional', 'dict')[container]}/{('plain', 'nested', 'same_name', 'namedtuple', 'generic', 'protocol_root')[naming]}"
         try:
             nodes = [*graph.itertypes(root_T)]
         except RecursionError:
@@ -249,7 +251,7 @@ def make_topo(n, container, ka, timeout, quick=True, seed=0):
             naming = 0
             adj = [bool((bits >> i) & 1) for i in range(nb)]
             if bits % (5 if quick else 3) == 0:
-                naming = 1 + ch.pick(3)
+                naming = 1 + ch.pick(5)
             reached()
             return run_graph(n, adj, ka, kb, container, naming)
 
